@@ -8,6 +8,7 @@ Everything that is random in a real deployment is an explicit, shrinkable part o
      "loss":   [0|1 ...],          # per-message loss bit in send order (1 = drop); afterwards: no loss
      "parts":  [{"t","dur","mask"}],     # partition windows: nodes whose bit is set in mask <-X-> the others
      "crashes":[{"node","t","dur","rearm"}],   # CrashNode windows (dur<=0: permanent); rearm: call on_restart
+     "slow":   [{"src","dst","t","dur","delay"}],   # one-way slow link: messages *sent* src->dst in [t, t+dur) take `delay`
      "seed":   int}
 
 The real code does the work: delays go through a ``LatencyDistribution`` subclass on real ``NetworkLink``s
@@ -30,7 +31,7 @@ MS = 1e-3
 
 # ------------------------------------------------------------------------------------------- generation
 def net_strategy(*, delay_values, max_delays=80, loss=True, max_loss=40, n_bits=5, max_parts=3, max_crashes=2,
-                 t_max=3000, dur_max=1500):
+                 t_max=3000, dur_max=1500, max_slow=0, slow_delays=(800, 1500, 2500)):
     """Hypothesis strategy for a net case.  ``delay_values``: strategy (or list) of delay units."""
     if isinstance(delay_values, (list, tuple)):
         delay_values = st.sampled_from(list(delay_values))
@@ -38,7 +39,11 @@ def net_strategy(*, delay_values, max_delays=80, loss=True, max_loss=40, n_bits=
                                   "mask": st.integers(1, 2 ** n_bits - 2)})
     crash = st.fixed_dictionaries({"node": st.integers(0, n_bits - 1), "t": st.integers(0, t_max),
                                    "dur": st.integers(0, dur_max), "rearm": st.booleans()})
+    slow = st.fixed_dictionaries({"src": st.integers(0, n_bits - 1), "dst": st.integers(0, n_bits - 1),
+                                  "t": st.integers(0, t_max), "dur": st.integers(1, dur_max),
+                                  "delay": st.sampled_from(list(slow_delays))})
     return st.fixed_dictionaries({
+        "slow": st.lists(slow, max_size=max_slow) if max_slow else st.just([]),
         "delays": st.lists(delay_values, max_size=max_delays),
         "loss": st.lists(st.sampled_from([0, 0, 0, 1]), max_size=max_loss) if loss else st.just([]),
         "parts": st.lists(part, max_size=max_parts) if max_parts else st.just([]),
@@ -107,6 +112,8 @@ class ScriptedNet:
         self.lossy = any(self.coin._bits)
         self.parts = [p for p in (case.get("parts") or []) if isinstance(p, dict)]
         self.crashes = [c for c in (case.get("crashes") or []) if isinstance(c, dict)]
+        self.slow = [c for c in (case.get("slow") or []) if isinstance(c, dict)]
+        self.max_delay = max_delay
         self.network = Network(name=name)
         self.nodes = []
         self.links = []
@@ -116,10 +123,19 @@ class ScriptedNet:
     def connect(self, nodes):
         from happysimulator.components.network.link import NetworkLink
         self.nodes = list(nodes)
-        for a in self.nodes:
-            for b in self.nodes:
+        n = len(self.nodes)
+        windows = {}
+        for w in self.slow:
+            i, j = _int(w.get("src"), 0) % n, _int(w.get("dst"), 0) % n
+            if i != j:
+                t0 = _int(w.get("t"), 0)
+                windows.setdefault((i, j), []).append((t0 * self.unit, (t0 + _int(w.get("dur"), 1)) * self.unit,
+                                                       _int(w.get("delay"), 0, self.max_delay) * self.unit))
+        for i, a in enumerate(self.nodes):
+            for j, b in enumerate(self.nodes):
                 if a is not b:
-                    link = NetworkLink(name=f"{a.name}>{b.name}", latency=self.latency,
+                    lat = self.latency if (i, j) not in windows else _windowed(self.latency, windows[(i, j)])
+                    link = NetworkLink(name=f"{a.name}>{b.name}", latency=lat,
                                        packet_loss_rate=0.5 if self.lossy else 0.0)
                     self.network.add_link(a, b, link)
                     self.links.append(link)
@@ -218,7 +234,31 @@ class ScriptedNet:
             f.append("partition")
         if self.crashes:
             f.append("crash")
+        if self.slow:
+            f.append("slow-link")
         return f
+
+
+def _windowed(shared, windows):
+    """Latency of one directed link: the shared script, except that a message sent inside a slow window takes that
+    window's delay (the shared script is still advanced, so the other links see the same sequence either way)."""
+    from happysimulator.core.temporal import Duration
+    from happysimulator.distributions.latency_distribution import LatencyDistribution
+
+    class Windowed(LatencyDistribution):
+        def __init__(self):
+            super().__init__(shared._mean_latency)
+
+        def get_latency(self, current_time=None):
+            d = shared.get_latency(current_time)
+            if current_time is not None:
+                t = current_time.to_seconds()
+                for t0, t1, delay in windows:
+                    if t0 <= t < t1:
+                        return Duration.from_seconds(delay)
+            return d
+
+    return Windowed()
 
 
 def is_continuation(event) -> bool:
